@@ -77,6 +77,11 @@ def run_dropscan(ctx):
             continue
         nscan += 1
         ctx.stats["dropscan:" + t[1]] += 1
+        if "blind" in t:
+            # no secret was visible in the object even before the drop (its representation differs from the exported
+            # value): the scan cannot tell anything about this object; counted, not an alarm
+            ctx.stats["dropscan_blind:" + t[1]] += 1
+            continue
         if t[-1] != "clean":
             c = Case("dropscan", t[1], 0, 0, b"", b"", ops=[l])
             ctx.violation("predicate", f"after drop (zeroize build) the storage of {t[1]} still holds {' '.join(t[2:])}", [c], {"H": [l], "replay": [f"{hbin} dropscan {seed} {n}"]},
